@@ -6,6 +6,7 @@ package main
 
 import (
 	"context"
+	"reflect"
 	"fmt"
 	"math/rand"
 	"strings"
@@ -55,22 +56,48 @@ func (c *pointsClient) ValidateAlgorithmSettings(ctx context.Context, in *api.Va
 	return &api.ValidateAlgorithmSettingsReply{}, nil
 }
 
+// rulesClient: an early-stopping service whose rules change from call to call (as medianstop's do while trials finish)
+type rulesClient struct {
+	api.EarlyStoppingClient
+	n    int
+	fail bool
+}
+
+func (c *rulesClient) GetEarlyStoppingRules(ctx context.Context, in *api.GetEarlyStoppingRulesRequest, opts ...grpc.CallOption) (*api.GetEarlyStoppingRulesReply, error) {
+	if c.fail {
+		return nil, fmt.Errorf("early stopping service unavailable")
+	}
+	c.n++
+	return &api.GetEarlyStoppingRulesReply{EarlyStoppingRules: []*api.EarlyStoppingRule{
+		{Name: "acc", Value: fmt.Sprintf("0.%d", c.n), Comparison: api.ComparisonType_LESS, StartStep: int32(c.n)}}}, nil
+}
+
+func (c *rulesClient) ValidateEarlyStoppingSettings(ctx context.Context, in *api.ValidateEarlyStoppingSettingsRequest, opts ...grpc.CallOption) (*api.ValidateEarlyStoppingSettingsReply, error) {
+	return &api.ValidateEarlyStoppingSettingsReply{}, nil
+}
+
 func init() {
 	conv := suggestionclient.New().(*suggestionclient.General)
 	runners["C08S"] = func(rng *rand.Rand, tier string, k int) Case {
 		pc := &pointsClient{rng: rng, named: rng.Intn(4) == 0}
-		suggestionclient.SetVerifRPCClients(func(*grpc.ClientConn) api.SuggestionClient { return pc }, func(*grpc.ClientConn) api.EarlyStoppingClient { return &fakeES{s: &sim{}} })
+		rc := &rulesClient{}
+		suggestionclient.SetVerifRPCClients(func(*grpc.ClientConn) api.SuggestionClient { return pc }, func(*grpc.ClientConn) api.EarlyStoppingClient { return rc })
 		e := &experimentsv1beta1.Experiment{ObjectMeta: metav1.ObjectMeta{Name: "e", Namespace: "ns"}}
 		e.Spec.Algorithm = &commonv1beta1.AlgorithmSpec{AlgorithmName: "random"}
 		e.Spec.Objective = &commonv1beta1.ObjectiveSpec{Type: commonv1beta1.ObjectiveTypeMaximize, ObjectiveMetricName: "acc"}
 		sg := &suggestionsv1beta1.Suggestion{ObjectMeta: metav1.ObjectMeta{Name: "e", Namespace: "ns"}}
 		sg.Spec.Algorithm = e.Spec.Algorithm.DeepCopy()
+		withES := rng.Intn(2) == 0
+		if withES {
+			e.Spec.EarlyStopping = &commonv1beta1.EarlyStoppingSpec{AlgorithmName: "medianstop"}
+			sg.Spec.EarlyStopping = e.Spec.EarlyStopping.DeepCopy()
+		}
 		rounds := 1 + rng.Intn(6)
 		req := int32(0)
 		toks := []string{}
 		outs := []string{}
 		canon := map[string]string{}
-		tags := []string{fmt.Sprintf("named-by-service=%v", pc.named)}
+		tags := []string{fmt.Sprintf("named-by-service=%v", pc.named), fmt.Sprintf("early-stopping=%v", withES)}
 		var impl string
 		func() {
 			defer func() {
@@ -83,10 +110,19 @@ func init() {
 					req += int32(1 + rng.Intn(3))
 				}
 				pc.kind = pick(rng, []string{"ok", "ok", "ok", "ok", "short", "long", "error"})
+				rc.fail = false
+				if withES && pc.kind == "ok" && rng.Intn(6) == 0 {
+					// the early-stopping rules RPC fails after a correct algorithm reply: the sync must fail as a whole
+					rc.fail = true
+					pc.kind = "rules-error"
+				}
 				tags = append(tags, "reply="+pc.kind)
 				toks = append(toks, fmt.Sprintf("%d %s", req, pc.kind))
 				sg.Spec.Requests = req
-				before := append([]suggestionsv1beta1.TrialAssignment{}, sg.Status.Suggestions...)
+				before := []suggestionsv1beta1.TrialAssignment{}
+				for _, a := range sg.Status.Suggestions {
+					before = append(before, *a.DeepCopy())
+				}
 				err := conv.SyncAssignments(sg, e, nil)
 				names := []string{}
 				prefixOk, sameOld := true, len(sg.Status.Suggestions) >= len(before)
@@ -98,7 +134,7 @@ func init() {
 					if !pc.named && !strings.HasPrefix(a.Name, "e-") {
 						prefixOk = false
 					}
-					if i < len(before) && (before[i].Name != a.Name || fmt.Sprint(before[i].ParameterAssignments) != fmt.Sprint(a.ParameterAssignments)) {
+					if i < len(before) && !reflect.DeepEqual(before[i], a) {
 						sameOld = false
 					}
 				}
